@@ -253,6 +253,22 @@ func rangesOverSection(c *Ctx, id *ir.Expr, section string) bool {
 	}
 	reach := w.Reachable([]*ssa.Function{src.Callee})
 	found := false
+	// a helper handed the prefix (a queue descriptor's method): its accesses are resolved with this call's arguments
+	params := map[string]*ir.Expr{}
+	for i, p := range src.Callee.Params {
+		if i < len(src.Args) {
+			params[p.Name()] = src.Args[i]
+		}
+	}
+	for _, e := range w.EffectsOf(src.Callee) {
+		if e.Generic && e.SecExpr != nil && (e.Kind == "StoreIter" || e.Kind == "StoreRead") {
+			if sec := w.SectionOfKey(ir.Subst(e.SecExpr, params)); sec == section {
+				found = true
+			} else {
+				return false
+			}
+		}
+	}
 	for f := range reach {
 		for _, e := range w.EffectsOf(f) {
 			if e.Generic {
